@@ -200,6 +200,19 @@ def run(tier, seed, t0):
     for (w1, p1), (w2, p2) in itertools.product(itertools.product(trees.DIRS, trees.POSITIONS), repeat=2):
         kids = [trees.node('a.asm', w1, p1, 'plain', [trees.node('deep.asm', 'sub', 'middle', 'dquote')]), trees.node('b.asm', w2, p2, 'comment')]
         cases.append(dict(tree=trees.node('main.asm', children=kids), cwds=['root', 'decoys']))
+    # two includers in different directories that both write `include config.asm`, each meaning the file beside itself
+    for w1, w2 in itertools.permutations(['.', 'sub', '..'], 2):
+        for p1, p2 in itertools.product(trees.POSITIONS, repeat=2):
+            kids = [trees.node('m1.asm', w1, p1, 'plain', [trees.node('config.asm', '.', 'middle', 'plain')]),
+                    trees.node('m2.asm', w2, p2, 'plain', [trees.node('config.asm', '.', 'first', 'dquote')])]
+            cases.append(dict(tree=trees.node('main.asm', children=kids), cwds=['root', 'other']))
+    # diamonds: the same file legitimately included twice (from two includers, and twice from one file)
+    for w in trees.DIRS:
+        for p1, p2 in itertools.product(trees.POSITIONS, repeat=2):
+            chip = trees.node('chip.asm', w, p1, 'plain')
+            kids = [trees.node('a.asm', '.', 'first', 'plain', [chip]), trees.node('b.asm', '.', p2, 'plain', [chip])]
+            cases.append(dict(tree=trees.node('main.asm', children=kids), cwds=['root', 'other']))
+            cases.append(dict(tree=trees.node('main.asm', children=[chip, trees.node('mid.asm', '.', p2, 'plain', [chip])]), cwds=['other']))
     # the same chains of depth 2 and 3 with a same-named decoy planted in every directory further up the include chain (not a documented search location)
     for i, t in enumerate(chains(2, trees.DIRS, trees.POSITIONS, ['plain'])):
         cases.append(dict(tree=t, cwds=['other'], shadow=True))
@@ -217,7 +230,7 @@ def run(tier, seed, t0):
                     'textually spliced single file; every tree has at least one include and is non-trivial',
                exhaustive=True, cli_runs=n['cli_runs'], subprocess_runs=n['subprocess_runs'],
                bound='chains of depth 1 and 2: full product of 4 locations x 3 positions x 4 include-line styles per level; depth 3: full product of locations x positions'
-                     '%s; siblings: all pairs of (location, position); chains of depth 2-3 with same-named decoys in every ancestor directory; 4 working directories; same name in two directories; --include-definitions; real sub-processes for a sub-set'
+                     '%s; siblings: all pairs of (location, position); two includers in different directories using the same relative name; diamonds (a file included twice); chains of depth 2-3 with same-named decoys in every ancestor directory; 4 working directories; same name in two directories; --include-definitions; real sub-processes for a sub-set'
                      % (' x styles' if tier == 'thorough' else ' (plain style)'))
     return kernel.finish(PROP, tier, seed, t0, m, cov, [
         'API calls pass an absolute main path and absolute include_dirs (what cli_main does); for source given as text the working directory is the documented base',
